@@ -100,11 +100,16 @@ def _zygote_main(conn):
       os.close(r)
       try:
         L = env.lib()
-        model, recipe, cal = req
         try:
-          qt = L.quantizer.Quantizer(model, recipe)
-          out = ('ok', hashlib.sha256(bytes(
-              qt.quantize(cal).quantized_model)).hexdigest())
+          if len(req) == 4 and req[0] == 'cal':
+            _, model, recipe, data = req
+            qt = L.quantizer.Quantizer(model, recipe)
+            out = ('ok', digest(qt.calibrate(data)))
+          else:
+            model, recipe, cal = req
+            qt = L.quantizer.Quantizer(model, recipe)
+            out = ('ok', hashlib.sha256(bytes(
+                qt.quantize(cal).quantized_model)).hexdigest())
         except Exception as e:  # pylint: disable=broad-except
           out = ('exc', type(e).__name__)
         os.write(w, json.dumps(out).encode())
@@ -147,6 +152,78 @@ def fresh_quantize(model, recipe, cal):
   return _memo[key]
 
 
+def fresh_calibrate(model, recipe, data):
+  key = digest(['cal', model, recipe, data])
+  if key not in _memo:
+    if _zyg is None:
+      worker_init()
+    _zyg.send(('cal', model, recipe, data))
+    _memo[key] = tuple(_zyg.recv())
+  return _memo[key]
+
+
+def run_cross(case, res):
+  """Two DIFFERENT models with identical tensor names and shapes (two
+  checkpoints of one network) handled one after the other in one process: the
+  second one's statistics and bytes must equal those of a fresh process."""
+  L = env.lib()
+  only = case.get('only')
+  for mi, ir in enumerate(model_irs()):
+    a = irm.build(dict(ir, pool=0))
+    for pool_b, wk in ((1, None), (2, 'big'), (3, 'tiny')):
+      irb = json.loads(json.dumps(ir))
+      irb['pool'] = pool_b
+      if wk:
+        for o in irb['subgraphs'][0]['ops']:
+          o['wk'] = wk
+      b = irm.build(irb)
+      for ri, recipe in enumerate(RECIPES + [[md.rule('.*', '*', 'WO4c')],
+                                             [md.rule('.*', '*', 'SRQ16')]]):
+        sub = f'cross:m{mi}:b{pool_b}:r{ri}'
+        if only is not None and only != sub:
+          continue
+        res['evals'] += 1
+        res['traces'] += 1
+        res['transitions'] += 4
+        data = [a.input_data(0, 'mix')]
+        try:
+          qa = L.quantizer.Quantizer(a.model, copy.deepcopy(recipe))
+          cal_a = qa.calibrate(copy.deepcopy(data)) if qa.need_calibration \
+              else None
+          qa.quantize(cal_a)
+        except Exception:  # pylint: disable=broad-except
+          pass
+        qb = L.quantizer.Quantizer(b.model, copy.deepcopy(recipe))
+        try:
+          cal_b = qb.calibrate(copy.deepcopy(data)) if qb.need_calibration \
+              else None
+          got_cal = ('ok', digest(cal_b)) if cal_b is not None else None
+        except Exception as ex:  # pylint: disable=broad-except
+          cal_b, got_cal = None, ('exc', type(ex).__name__)
+        if qb.need_calibration:
+          want_cal = fresh_calibrate(b.model, copy.deepcopy(recipe), data)
+          if tuple(got_cal) != tuple(want_cal):
+            res['fails'].append(findings.fail(
+                PROP, 'history_dependent_calibration', f'[{sub}] statistics of '
+                'the second model differ from a fresh process', sub, {},
+                group='cross:cal'))
+            continue
+        snap = copy.deepcopy(cal_b)
+        try:
+          got = ('ok', hashlib.sha256(bytes(
+              qb.quantize(cal_b).quantized_model)).hexdigest())
+        except Exception as ex:  # pylint: disable=broad-except
+          got = ('exc', type(ex).__name__)
+        want = fresh_quantize(b.model, copy.deepcopy(recipe), snap)
+        res['nontrivial'] += 1
+        res['hashes'].append(sub + got[1][:8])
+        if tuple(got) != tuple(want):
+          res['fails'].append(findings.fail(
+              PROP, 'history_dependent_result', f'[{sub}] bytes of the second '
+              f'model: this process {got[0]}:{got[1][:12]}, fresh process '
+              f'{want[0]}:{want[1][:12]}', sub, {}, group='cross:bytes'))
+
+
 # ---------------------------------------------------------------------------
 def plan(tier, seed):
   ev = events()
@@ -156,6 +233,7 @@ def plan(tier, seed):
     for i in range(len(ev)):
       cases.append({'model': mi, 'first': i, 'depth': depth})
   cases.append({'hashseed': True})
+  cases.append({'cross': True})
   return {
       'cases': cases, 'chunk': 1, 'init': worker_init,
       'budget_s': 285 if tier == 'quick' else 3400,
@@ -322,6 +400,11 @@ def run_case(case, note, skip):
     res['traces'] = res['evals']
     res['states'] = 1
     res['transitions'] = res['evals']
+    return res
+  if case.get('cross'):
+    run_cross(case, res)
+    res['states'] = 1
+    res['sample'] = {'cross_model': 'A then B (same names, other weights)'}
     return res
   ev = events()
   seen_states = set()
